@@ -277,6 +277,8 @@ func runC11(w *World) *Result {
 	CharAccessRule(w, r, "R-C11-bytes")
 	r.Rule("R-C11-int", "integer literals keep their value: parsed by an integer parser, never through a floating-point type", 1)
 	IntLiteralRule(w, r, "R-C11-int")
+	r.Rule("R-C11-sign", "the operator - is recognised after an operand whatever separates them: the probe that can start with a sign is conditioned on the previous token that was kept, and on every token type that can end an integer operand", 2)
+	SignRule(w, r, "R-C11-sign")
 	r.Rule("R-C11-pos", "arms that can consume \\n assign the row counter, and compute every position update from the consumed source text (not the decoded value)", 5)
 	r.Rule("R-C11-errors", "unterminated string and unknown character end in an error exit", 2)
 	r.Rule("R-C11-escapes", "escape sequences are decoded for their full length", 1)
@@ -1472,6 +1474,95 @@ func SignRule(w *World, r *Result, rule string) {
 				}
 			}
 		}
+		// ... or at a variable that remembers the last token (or its type): it has to be set
+		// exactly where a token is added to the list, or it also remembers the blanks and
+		// comments that are dropped
+		memBad := false
+		if !conditioned && loop != nil {
+			tokSlice := func(n ast.Node) bool {
+				id, ok := n.(*ast.Ident)
+				if !ok {
+					return false
+				}
+				o := info.Uses[id]
+				return o != nil && strings.HasSuffix(o.Type().String(), "[]"+pkg.Types.Path()+".Token")
+			}
+			for _, arm := range arms {
+				if !((arm.Init != nil && within(arm.Init, re.Pos)) || within(arm.Cond, re.Pos)) {
+					continue
+				}
+				var mem []types.Object
+				for _, root := range []ast.Node{arm.Init, arm.Cond} {
+					if root == nil || (root == arm.Init && arm.Init == nil) {
+						continue
+					}
+					ast.Inspect(root, func(n ast.Node) bool {
+						if id, ok := n.(*ast.Ident); ok {
+							if v, ok := info.Uses[id].(*types.Var); ok && !v.IsField() {
+								tn := v.Type().String()
+								if tn == pkg.Types.Path()+".Token" || tn == pkg.Types.Path()+".TokenType" {
+									mem = append(mem, v)
+								}
+							}
+						}
+						return true
+					})
+				}
+				for _, v := range mem {
+					nAssign, stray := 0, ""
+					var visit func(list []ast.Stmt)
+					check := func(list []ast.Stmt) {
+						hasAppend := false
+						for _, st := range list {
+							if as, ok := st.(*ast.AssignStmt); ok && len(as.Rhs) == 1 {
+								if call, ok := as.Rhs[0].(*ast.CallExpr); ok {
+									if id, ok := call.Fun.(*ast.Ident); ok && id.Name == "append" && len(call.Args) > 0 && tokSlice(call.Args[0]) {
+										hasAppend = true
+									}
+								}
+							}
+						}
+						for _, st := range list {
+							if as, ok := st.(*ast.AssignStmt); ok {
+								for _, l := range as.Lhs {
+									if id, ok := l.(*ast.Ident); ok && (info.Uses[id] == v) {
+										nAssign++
+										if !hasAppend {
+											stray = w.Pos(as.Pos())
+										}
+									}
+								}
+							}
+						}
+					}
+					visit = func(list []ast.Stmt) {
+						check(list)
+						for _, st := range list {
+							ast.Inspect(st, func(n ast.Node) bool {
+								switch b := n.(type) {
+								case *ast.BlockStmt:
+									if n != st {
+										visit(b.List)
+										return false
+									}
+								case *ast.CaseClause:
+									visit(b.Body)
+									return false
+								}
+								return true
+							})
+						}
+					}
+					visit(loop.Body.List)
+					if nAssign > 0 && stray == "" {
+						conditioned = true
+					} else if stray != "" {
+						memBad = true
+						r.Bad(rule, key+":memory", w.Pos(re.Pos), fmt.Sprintf("the previous-token test reads %s, which is also set (%s) for tokens that are not added to the token list: after a blank or a comment the sign is glued to the literal (a -1 lexes as a, -1 while a-1 lexes as a, -, 1)", v.Name(), stray))
+					}
+				}
+			}
+		}
 		if conditioned {
 			// which previous tokens make the sign an operator: every token type that can end an
 			// integer operand must be among them (table with the reason for each entry)
@@ -1539,7 +1630,7 @@ func SignRule(w *World, r *Result, rule string) {
 				r.Ok(rule, key+":operand-enders", w.Pos(re.Pos), "previous-token set "+strings.Join(fs, ",")+" contains every token type that can end an integer operand")
 			}
 			r.Ok(rule, key, w.Pos(re.Pos), "probe starting with "+strings.Join(overlap, ",")+" is conditioned on the previous token")
-		} else {
+		} else if !memBad {
 			r.Bad(rule, key, w.Pos(re.Pos), "probe "+fmt.Sprintf("%q", re.Pattern)+" can start with "+strings.Join(overlap, ",")+" which is also punctuation, and is tried regardless of the previous token: a-1 lexes as a, -1 (rejected) while a - 1 lexes as a, -, 1 — acceptance depends on blanks")
 		}
 	}
